@@ -667,3 +667,66 @@ func VerifC11RerunSiblings() {
 	vassert(e2 == nil, "the resumed run completes")
 	vassert(final == 11 && out["n"] == 3, "no state update and no output is lost across interrupt and resume")
 }
+
+// A state handler or ProcessState callback that panics releases the state: the run fails with an error, and the
+// handlers of a parallel node still get the state (no goroutine is left blocked on it), whichever of the two goes first.
+func VerifC11HandlerPanic() {
+	ctx := context.Background()
+	vcfg("preempt", 2)
+	which := vchoose("which", 5) // a's panicking piece: pre, post, ProcessState, stream pre, stream post
+	mode := vchoose("mode", 2)
+	mon := &c11Mon{}
+	var aOpts []GraphAddNodeOpt
+	switch which {
+	case 0:
+		aOpts = append(aOpts, WithStatePreHandler(func(ctx context.Context, in map[string]any, s *c11State) (map[string]any, error) {
+			panic("boom")
+		}))
+	case 1:
+		aOpts = append(aOpts, WithStatePostHandler(func(ctx context.Context, out map[string]any, s *c11State) (map[string]any, error) {
+			panic("boom")
+		}))
+	case 3:
+		aOpts = append(aOpts, WithStreamStatePreHandler(func(ctx context.Context, in *schema.StreamReader[map[string]any], s *c11State) (*schema.StreamReader[map[string]any], error) {
+			panic("boom")
+		}))
+	case 4:
+		aOpts = append(aOpts, WithStreamStatePostHandler(func(ctx context.Context, out *schema.StreamReader[map[string]any], s *c11State) (*schema.StreamReader[map[string]any], error) {
+			panic("boom")
+		}))
+	}
+	g := NewGraph[map[string]any, map[string]any](WithGenLocalState(c11Gen))
+	_ = g.AddLambdaNode("a", InvokableLambda(func(ctx context.Context, in map[string]any) (map[string]any, error) {
+		if which == 2 {
+			_ = ProcessState(ctx, func(ctx context.Context, s *c11State) error { panic("boom") })
+		}
+		return map[string]any{"a": 1}, nil
+	}), aOpts...)
+	_ = g.AddLambdaNode("b", InvokableLambda(func(ctx context.Context, in map[string]any) (map[string]any, error) {
+		err := ProcessState(ctx, func(ctx context.Context, s *c11State) error {
+			mon.section(s, 1, true)
+			return nil
+		})
+		return map[string]any{"b": 1}, err
+	}), WithStatePreHandler(func(ctx context.Context, in map[string]any, s *c11State) (map[string]any, error) {
+		mon.section(s, 1, false)
+		return in, nil
+	}), WithStatePostHandler(func(ctx context.Context, out map[string]any, s *c11State) (map[string]any, error) {
+		mon.section(s, 1, false)
+		return out, nil
+	}))
+	_ = g.AddEdge(START, "a")
+	_ = g.AddEdge(START, "b")
+	_ = g.AddEdge("a", END)
+	_ = g.AddEdge("b", END)
+	var opts []GraphCompileOption
+	if mode == 1 {
+		opts = append(opts, WithNodeTriggerMode(AllPredecessor))
+	}
+	r, err := g.Compile(ctx, opts...)
+	vassert(err == nil, "stateful graph compiles")
+	_, rerr := r.Invoke(ctx, map[string]any{"in": 1})
+	vassert(rerr != nil, "a panicking state handler fails the run with an error")
+	vquiesce()
+	vassert(mon.bad == "", mon.bad)
+}
